@@ -489,6 +489,29 @@ def rule_r7(ctx) -> List[R.Inst]:
     return insts
 
 
+def _resolve_in(scope, e, depth=0):
+    """a name bound exactly once inside ``scope`` stands for its value"""
+    if isinstance(e, ast.Name) and depth < 4:
+        ds = [n.value for n in ast.walk(scope) if isinstance(n, ast.Assign) and len(n.targets) == 1 and isinstance(n.targets[0], ast.Name) and
+              n.targets[0].id == e.id]
+        if len(ds) == 1:
+            return _resolve_in(scope, ds[0], depth + 1)
+    return e
+
+
+def _row_index_form(bloop, mstr):
+    """for R in range(LO, HI): ... <measure>[R] ...  inside the beat loop -> (loop, LO, HI, R): the beat's rows addressed by their
+    index in the measure instead of being sliced out first"""
+    for l in ast.walk(bloop):
+        if l is not bloop and isinstance(l, ast.For) and isinstance(l.target, ast.Name) and isinstance(l.iter, ast.Call) and \
+                call_name_(l.iter) == "range" and len(l.iter.args) == 2 and not l.iter.keywords:
+            rv = l.target.id
+            if any(isinstance(x, ast.Subscript) and unparse(x.value) == mstr and isinstance(x.slice, ast.Name) and x.slice.id == rv for x in ast.walk(l)):
+                lo, hi = (_resolve_in(bloop, a) for a in l.iter.args)
+                return l, lo, hi, rv
+    return None
+
+
 def rule_r9(ctx) -> List[R.Inst]:
     """row r of an n-row measure sits at beat 4r/n: slicing into METRONOME equal parts, fraction inside the part, Snap arguments"""
     from .. import sym
@@ -531,7 +554,30 @@ def rule_r9(ctx) -> List[R.Inst]:
     # (b) slice bounds of the beat's rows
     sl = [n for n in ast.walk(bloop) if isinstance(n, ast.Assign) and unparse(n.targets[0]) == "beat_str" and
           isinstance(n.value, ast.Subscript) and isinstance(n.value.slice, ast.Slice)]
-    if len(sl) != 1:
+    rowform = _row_index_form(bloop, mstr) if len(sl) != 1 else None
+    if rowform is not None:
+        rl, lo, hi, rv = rowform
+        lf = lambda n: ("N" if unparse(n) == f"len({mstr})" else ("M4" if unparse(n) == "METRONOME" else None))   # noqa: E731
+        TR = ("float", "int", "floordiv")
+        good = sym.canon(lo, lf, TR).same(sym.parse(f"{bvar} * N / M4")) and sym.canon(hi, lf, TR).same(sym.parse(f"({bvar} + 1) * N / M4"))
+        insts.append(R.ok(rid, "beat-slice", file, rl.lineno, idiom="rows range(beat*n//4, (beat+1)*n//4) of the measure, each read as measure[row]") if good else
+                     R.viol(rid, "beat-slice", file, rl.lineno,
+                            "beat b of an n-row measure owns rows [b*n/4, (b+1)*n/4); other bounds drop or double rows",
+                            construct=f"range({unparse(lo)}, {unparse(hi)})"))
+        sn = [n for n in ast.walk(rl) if isinstance(n, ast.Assign) and unparse(n.targets[0]) == "snap" and isinstance(n.value, ast.Call)]
+        if len(sn) == 1:
+            res = lambda e: _resolve_in(bloop, e)      # noqa: E731
+            lo_t, hi_t = unparse(lo), unparse(hi)
+            lf3 = lambda n: ("I" if unparse(n) == rv else ("LO" if unparse(res(n)) == lo_t and not isinstance(n, ast.Constant) else
+                                                               ("HI" if unparse(res(n)) == hi_t and not isinstance(n, ast.Constant) else None)))   # noqa: E731
+            if sym.canon(sn[0].value, lf3).same(sym.parse("(I - LO) / (HI - LO)")):
+                insts.append(R.ok(rid, "row-fraction", file, sn[0].lineno, idiom="row r of the beat's rows [lo, hi) sits at (r - lo)/(hi - lo) of the beat"))
+            else:
+                insts.append(R.viol(rid, "row-fraction", file, sn[0].lineno, "row i of the beat's k rows sits at i/k of the beat (i from 0)",
+                                    construct=unparse(sn[0].value)))
+        else:
+            insts.append(R.undec(rid, "row-fraction", file, rl.lineno, "row fraction not recognised"))
+    elif len(sl) != 1:
         insts.append(R.undec(rid, "beat-slice", file, bloop.lineno, "slice of the beat's rows not found"))
     else:
         lo, hi = sl[0].value.slice.lower, sl[0].value.slice.upper
@@ -547,9 +593,11 @@ def rule_r9(ctx) -> List[R.Inst]:
                                 construct=unparse(sl[0].value)))
     # (c) fraction inside the beat and the Snap
     sn = [n for n in ast.walk(bloop) if isinstance(n, ast.Assign) and unparse(n.targets[0]) == "snap" and isinstance(n.value, ast.Call)]
-    sloop = next((l for l in ast.walk(bloop) if isinstance(l, ast.For) and isinstance(l.iter, ast.Call) and
+    sloop = None if rowform is not None else next((l for l in ast.walk(bloop) if isinstance(l, ast.For) and isinstance(l.iter, ast.Call) and
                   call_name_(l.iter) == "enumerate" and unparse(l.iter.args[0]) == "beat_str"), None)
-    if len(sn) == 1 and sloop is not None and len(sloop.iter.args) == 1 and not sloop.iter.keywords:
+    if rowform is not None:
+        pass
+    elif len(sn) == 1 and sloop is not None and len(sloop.iter.args) == 1 and not sloop.iter.keywords:
         lf2 = lambda n: ("K" if unparse(n) == "len(beat_str)" else None)   # noqa: E731
         ivar = sloop.target.elts[0].id if isinstance(sloop.target, ast.Tuple) and isinstance(sloop.target.elts[0], ast.Name) else "snap"
         if sym.canon(sn[0].value, lf2).same(sym.parse(f"{ivar} / K")):
@@ -695,6 +743,30 @@ def rule_r10(ctx) -> List[R.Inst]:
     return [R.ok(rid, "position-table", file, fn.node.lineno, idiom=f"{sorted(cons)} all feed {keys}")]
 
 
+def _per_line_comment_cut(e) -> bool:
+    """"\n".join(<line>.partition("//")[0] for <line> in <text>.split("\n"))  (also .split("//")[0] / .split("//", 1)[0], splitlines()):
+    every line keeps what stands before its first `//`"""
+    for j in ast.walk(e):
+        if not (isinstance(j, ast.Call) and isinstance(j.func, ast.Attribute) and j.func.attr == "join" and isinstance(j.func.value, ast.Constant) and
+                j.func.value.value == "\n" and len(j.args) == 1 and isinstance(j.args[0], (ast.ListComp, ast.GeneratorExp))):
+            continue
+        c = j.args[0]
+        if len(c.generators) != 1 or c.generators[0].ifs or not isinstance(c.generators[0].target, ast.Name):
+            continue
+        v = c.generators[0].target.id
+        it = c.generators[0].iter
+        lines_ok = isinstance(it, ast.Call) and isinstance(it.func, ast.Attribute) and (
+            (it.func.attr == "split" and len(it.args) == 1 and isinstance(it.args[0], ast.Constant) and it.args[0].value == "\n") or
+            (it.func.attr == "splitlines" and not it.args))
+        el = c.elt
+        cut_ok = isinstance(el, ast.Subscript) and isinstance(el.slice, ast.Constant) and el.slice.value == 0 and isinstance(el.value, ast.Call) and \
+            isinstance(el.value.func, ast.Attribute) and el.value.func.attr in ("partition", "split") and isinstance(el.value.func.value, ast.Name) and \
+            el.value.func.value.id == v and el.value.args and isinstance(el.value.args[0], ast.Constant) and el.value.args[0].value == "//"
+        if lines_ok and cut_ok:
+            return True
+    return False
+
+
 def rule_r11(ctx) -> List[R.Inst]:
     """tokenising: a comment runs from `//` to the end of its line wherever it stands, so comments must be removed BEFORE the
     text is cut at the structural characters `;` `:` `,`; rows are the non-blank lines with surrounding whitespace removed; a
@@ -733,6 +805,8 @@ def rule_r11(ctx) -> List[R.Inst]:
                 for d_ in sorted(ds, key=lambda n: -n.lineno):
                     if any(isinstance(x, ast.Call) and call_name_(x) == "sub" and x.args and isinstance(x.args[0], ast.Constant) and
                            isinstance(x.args[0].value, str) and x.args[0].value.startswith("//") for x in ast.walk(d_.value)):
+                        stripped = True
+                    if _per_line_comment_cut(d_.value):
                         stripped = True
                 if stripped:
                     break
